@@ -100,6 +100,35 @@ impl MockReader {
             .await?;
         self.count = count;
         self.frame_id = self.frame_id.wrapping_add(1);
+        #[cfg(dnp3_verif)]
+        if let Some(info) = verif_hook::next_frame_info() {
+            self.info = Some(info);
+        }
         Ok(())
+    }
+}
+
+/// verification hook H6: the harness queues the `FrameInfo` (source address, broadcast mode) that
+/// the next received fragment is stamped with, so that it can vary within one history
+#[cfg(dnp3_verif)]
+pub(crate) mod verif_hook {
+    use crate::link::header::FrameInfo;
+    use std::cell::RefCell;
+    use std::collections::VecDeque;
+
+    thread_local! {
+        static QUEUE: RefCell<VecDeque<FrameInfo>> = const { RefCell::new(VecDeque::new()) };
+    }
+
+    pub(crate) fn push_frame_info(info: FrameInfo) {
+        QUEUE.with(|q| q.borrow_mut().push_back(info));
+    }
+
+    pub(crate) fn next_frame_info() -> Option<FrameInfo> {
+        QUEUE.with(|q| q.borrow_mut().pop_front())
+    }
+
+    pub(crate) fn clear() {
+        QUEUE.with(|q| q.borrow_mut().clear());
     }
 }
